@@ -11,7 +11,7 @@ for ID in $IDS; do
     rsync -a --exclude .git /repo/ $S/repo/
     mkdir -p $S/verif && for d in checks replay probes known_findings.json; do ln -s $V/$d $S/verif/$d; done
     if ! (cd $S/repo && git apply $P 2>$S/apply.err); then echo "SKIP   $ID $(basename $P) ($(head -1 $S/apply.err))"; rm -rf $S; continue; fi
-    if ! (cd $S/repo && GOFLAGS=-mod=mod GOPROXY=off go build ./... >/dev/null 2>&1); then echo "SKIP   $ID $(basename $P) (does not build)"; rm -rf $S; continue; fi
+    if ! (cd $S/repo && GOFLAGS="-mod=mod -trimpath" GOPROXY=off go build ./... >/dev/null 2>&1); then echo "SKIP   $ID $(basename $P) (does not build)"; rm -rf $S; continue; fi
     OUT=$(VERIF_REPO=$S/repo VERIF_ROOT=$S/verif $V/bin/gocv check $ID 2>&1); RC=$?
     if [ $RC -eq 0 ]; then echo "QUIET  $ID $(basename $P)"; ok=$((ok+1)); else echo "ALARM  $ID $(basename $P): $(echo "$OUT" | grep 'failed obligation' | head -1 | cut -c1-160)"; bad=$((bad+1)); fi
     rm -rf $S
